@@ -3,19 +3,15 @@
 
 use crate::parsers::{input_strategy, Input};
 use bytes::Bytes;
-use ipp::parser::{AsyncIppParser, IppParser};
 use ipp::prelude::*;
-use ipp::reader::{AsyncIppReader, IppReader};
 use proptest::prelude::*;
 use serde_json::{json, Value};
 use std::sync::atomic::{AtomicBool, Ordering};
 use std::sync::Mutex;
 use std::time::{Duration, Instant};
 use vcore::canon::hash64;
-use vcore::drive::*;
 use vcore::mutate::*;
 use vcore::runner::*;
-use vcore::sched::*;
 
 // ------------------------------------------------------------------------------------------------
 // hang watchdog for the in-process part: every worker publishes the input it is working on
